@@ -128,7 +128,7 @@ static const char *IMPLN[] = { "array", "linked_list", "dlinked_list" };
 /* one program step */
 static void step(void)
 {
-    int op = (int) vh_below(48);
+    int op = (int) vh_below(50);
     int i, j;
     switch (op) {
     case 0: case 1: { const char *w = word(); vh_op("str_new_from_ptr(%s)", vh_qs(w)); own(spif_str_new_from_ptr((spif_charptr_t) w), T_STR, 0); vh_count("create", 1); break; }
@@ -277,6 +277,19 @@ static void step(void)
                  else if (pool[i].kind == T_VEC) SPIF_VECTOR_INSERT((spif_vector_t) pool[i].p, new_label());
                  else { spif_obj_t k = new_label(); SPIF_MAP_SET((spif_map_t) pool[i].p, k, k); SPIF_OBJ_DEL(k); }
                  vh_count("done_reinit", 1); } break;
+    /* ---- a map is given back the very value object it handed out for that key (the old value must not be released before the new copy exists) */
+    case 48: if ((i = pick_kind(T_MAP)) >= 0) { spif_map_t m = pool[i].p; spif_obj_t k = new_label(); spif_obj_t v = SPIF_MAP_GET(m, k);
+                 if (v) { vh_op("map_set(#%d, %s, the value object map_get just returned)", i, vh_qs((char *) SPIF_STR_STR((spif_str_t) k))); SPIF_MAP_SET(m, k, v); vh_count("map_set_with_own_value", 1); }
+                 SPIF_OBJ_DEL(k); } break;
+    /* ---- constructors from a descriptor that cannot deliver: an empty file, and a non-empty file opened write-only (read() fails) */
+    case 49: { int f = (int) vh_below(4), fd;
+               if (f & 1) { fd = memfd_create("c06-empty", 0); }
+               else { char nm[64]; snprintf(nm, sizeof nm, "c06-wronly-%d", vh_shard); fd = open(nm, O_WRONLY | O_CREAT | O_TRUNC, 0600); if (fd >= 0 && write(fd, "twelve bytes", 12) < 0) { } }
+               if (fd < 0) break;
+               vh_op("%s_new_from_fd(%s descriptor) -- whatever it answers, nothing may stay allocated that the caller cannot release", (f & 2) ? "mbuff" : "str", (f & 1) ? "empty" : "write-only");
+               if (f & 2) { spif_mbuff_t r = spif_mbuff_new_from_fd(fd); if (r) own(r, T_MBUFF, 0); }
+               else { spif_str_t r = spif_str_new_from_fd(fd); if (r) own(r, T_STR, 0); }
+               close(fd); vh_count("constructions_from_undeliverable_descriptor", 1); break; }
     case 38: case 39: if (npool > 0) { i = (int) vh_below((uint64_t) npool); vh_op("early delete of #%d (%s)", i, TN[pool[i].kind]); destroy(i); vh_count("early_delete", 1); } break;
     }
 }
